@@ -71,6 +71,7 @@ PadData(d) == [b \in Blocks |-> IF b + 1 <= Len(d) THEN d[b + 1] ELSE Hole]
 \* ---- apply -----------------------------------------------------------------
 SpecStep(e) ==
     CASE e.ev = "Write"         -> Write(e.a.s0, e.a.n, e.a.v)
+      [] e.ev = "WriteStride"   -> WriteStride(e.a.b0, e.a.step, e.a.count, e.a.v)
       [] e.ev = "Read"          -> Read(e.a.s0, e.a.n)
       [] e.ev = "Snapshot"      -> Snapshot(e.a.name, e.a.user)
       [] e.ev = "PrepareRemove" -> PrepareRemove(e.a.name)
@@ -211,6 +212,13 @@ Rules(e, d2) ==
     \* reported and persisted) names the member below the head
     \cup (IF open /\ st.open /\ "eparent" \in DOMAIN st /\ st.eparent # disks[chain[Len(chain)]].parent
           THEN {"HeadParent"} ELSE {})
+    \* the plan PrepareRemoveDisk hands to its callers folds the snapshot into the member directly
+    \* below it (anything else changes what the members in between, or the live volume, read)
+    \cup (IF e.ev = "PrepareRemove" /\ e.res = "ok" /\ res = "ok" /\ "plan" \in DOMAIN e.x /\
+             \E i \in 1..Len(e.x.plan) : /\ e.x.plan[i][1] = "coalesce"
+                                         /\ e.x.plan[i][2] \in DOMAIN disks
+                                         /\ e.x.plan[i][3] # disks[e.x.plan[i][2]].parent
+          THEN {"PlanTarget"} ELSE {})
     \cup (IF DOMAIN files # DOMAIN disks THEN {"DirNames"} ELSE {})
     \cup (IF \E n \in common : \/ files[n].parent # disks[n].parent
                                \/ files[n].user # disks[n].user
